@@ -464,13 +464,26 @@ def update_case(rng):
         args.append(rng.choice(["--patch", "--minor", "--major"]))
     if rng.random() < 0.3:
         args += ["--tag", rng.choice(TAGS)]
-    case = {"kind": "update", "vp": vp, "old": old, "args": args}
+    # a second configured file that is NOT valid UTF-8 (a Latin-1 header): the update cannot complete and must leave every file alone
+    non_utf8 = rng.random() < 0.15
+    case = {"kind": "update", "vp": vp, "old": old, "args": args, "non_utf8_file": non_utf8}
     before = "v: %s\npep: %s\n" % (old, legacy_pep(vp, old))
     with sandbox.Project("c20") as p:
         p.write_text("bumpver.toml", '[bumpver]\ncurrent_version = %s\nversion_pattern = %s\ncommit = false\n[bumpver.file_patterns]\n'
-                     '"bumpver.toml" = [\'current_version = "{version}"\']\n"a.txt" = ["v: {version}", "pep: {pep440_version}"]\n' % (json.dumps(old), json.dumps(vp)))
+                     '"bumpver.toml" = [\'current_version = "{version}"\']\n"a.txt" = ["v: {version}", "pep: {pep440_version}"]\n%s' % (
+                         json.dumps(old), json.dumps(vp), '"z_latin1.txt" = ["v: {version}"]\n' if non_utf8 else ""))
         p.write_text("a.txt", before)
+        if non_utf8:
+            p.write_bytes("z_latin1.txt", b"# \xa9 2020 J\xfcrgen\nv: " + old.encode("utf-8") + b"\n")
+        snap0 = p.snapshot()
         code, out, exc = sandbox.run_cli(args, p.dir)
+        if non_utf8:
+            snap1 = p.snapshot()
+            case.update(exit=code, exc=exc)
+            if code == 0:
+                return case, "`bumpver %s` exited 0 although z_latin1.txt is not valid UTF-8" % " ".join(args)
+            changed = sorted(k for k in set(snap0) | set(snap1) if snap0.get(k) != snap1.get(k))
+            return case, ("`bumpver %s` failed (exit %s) but changed %r" % (" ".join(args), code, changed)) if changed else None
         cfg = p.read_bytes("bumpver.toml").decode("utf-8")
         a = p.read_bytes("a.txt").decode("utf-8")
     m = re.search(r'current_version = "([^"]*)"', cfg)
